@@ -442,6 +442,13 @@ class LazyGen:
         if thrown is not None:
             raise thrown  # gen.throw(exc): the exception appears at the yield
 
+    def close(self):
+        if self.started and not self.finished:
+            self.closing = True
+            self._resume.release()
+            self._produced.acquire()
+        self.finished = True
+
     def throw(self, exc):
         """raise `exc` inside the suspended body (at its yield) and run it on -> the next yielded value; StopIteration when it ends"""
         if not self.started or self.finished:
@@ -457,12 +464,7 @@ class CtxManager:
     def __init__(self, gen: LazyGen, name: str):
         self.gen, self.name = gen, name
 
-    def close(self):
-        if self.started and not self.finished:
-            self.closing = True
-            self._resume.release()
-            self._produced.acquire()
-        self.finished = True
+
 
 
 class _Continue(Exception):
@@ -2006,7 +2008,13 @@ class Interp:
                 if name == "itertools.chain.from_iterable" and len(args) == 1:
                     return [x_ for a_ in self._iterable(args[0]) for x_ in self._iterable(a_)]
                 if name == "itertools.repeat" and args:
-                    return [args[0]] * (args[1] if len(args) > 1 else 65)
+                    if len(args) == 1 and "times" not in kwargs and getattr(self.sc, "lazy_generators", False):
+                        import itertools as _it
+                        return _it.repeat(args[0])  # endless, as in Python: whoever consumes it is bounded by the loop / step bounds
+                    return [args[0]] * (args[1] if len(args) > 1 else kwargs.get("times", 65))
+                if name == "itertools.cycle" and len(args) == 1 and getattr(self.sc, "lazy_generators", False):
+                    import itertools as _it
+                    return _it.cycle(list(self._iterable(args[0])))
                 if name == "itertools.starmap" and len(args) == 2:
                     return [self.apply(args[0], list(xs), {}, node, m) for xs in self._iterable(args[1])]
                 if name == "itertools.islice" and len(args) >= 2:
